@@ -59,6 +59,9 @@ func runOne(h handler, c map[string]json.RawMessage) (out interface{}, pan strin
 		if r := recover(); r != nil {
 			st := string(debug.Stack())
 			pan = fmt.Sprint(r)
+			if cp, ok := r.(cliPanic); ok {
+				st, pan = cp.stack, cp.msg // the panic happened in the CLI process: its own stack names the site
+			}
 			site = panicSite(st)
 			lastFrames = cocaFrames(st)
 			out = nil
